@@ -15,7 +15,7 @@ def conc_name(comp):
 def rate_value(desc, values, k):
     if k in desc.get('derived', {}):
         return sum(values['global.' + p] for p in desc['derived'][k])
-    if k.startswith('dose.'):
+    if k.endswith('.absorption_rate'):
         return values[k]
     return values['global.' + k]
 
@@ -33,7 +33,8 @@ def matrix(desc, values, comps):
     return M
 
 
-def solve(desc, values, times, dosed=None, events=(), depot=False):
+def solve(desc, values, times, dosed=None, events=(), depot=False,
+          depot_name='dose'):
     """Returns dict qname -> array over `times` for amounts, concentrations and
     intermediates. `values`: qname -> value (initial amounts, sizes, rate constants;
     with depot also 'dose.drug_amount', 'dose.absorption_rate').
@@ -42,17 +43,20 @@ def solve(desc, values, times, dosed=None, events=(), depot=False):
     comps = [c['id'] for c in desc['comps']]
     d = dict(desc)
     names = [state_name(c) for c in comps]
+    DEPOT = '<depot>'
     if depot:
-        comps = comps + ['dose']
-        names = names + ['dose.drug_amount']
+        # (the depot is called `depot_name` in the published names: 'dose', or
+        # 'dose_1' when the model has a compartment of that name itself)
+        comps = comps + [DEPOT]
+        names = names + [depot_name + '.drug_amount']
         d['reactions'] = list(desc['reactions']) + [
-            {'from': 'dose', 'to': dosed, 'k': 'dose.absorption_rate'}]
+            {'from': DEPOT, 'to': dosed, 'k': depot_name + '.absorption_rate'}]
     M = matrix(d, values, comps)
     n = len(comps)
     x = np.array([values[nm] for nm in names], dtype=M.dtype)
     target = None
     if dosed is not None:
-        target = comps.index('dose' if depot else dosed)
+        target = comps.index(DEPOT if depot else dosed)
     times = np.asarray(times, dtype=float)
     brk = set()
     for s, du, r in events:
@@ -84,7 +88,7 @@ def solve(desc, values, times, dosed=None, events=(), depot=False):
     res = {}
     for j, c in enumerate(comps):
         res[names[j]] = out[:, j]
-        if c != 'dose':
+        if c != DEPOT:
             res[conc_name(c)] = out[:, j] / values[c + '.size']
     for name, cs in desc.get('inter', {}).items():
         res['global.' + name] = sum(out[:, comps.index(c)] for c in cs)
